@@ -29,6 +29,11 @@ fn conv_strategy() -> BS<Conv> {
         (2, (-32i128..=32, small_delta(3)).prop_map(|(k, d)| k * NPC + d).boxed()),
         // so that the *target* count sits at a century boundary: handled by adding each offset
         (2, (0usize..6, 0usize..6, -3i128..=3, small_delta(2)).prop_map(|(a, b, k, d)| k * NPC + d - zero_tai_ns(UNIFORM[a]) + zero_tai_ns(UNIFORM[b])).boxed()),
+        // so that the reading in SOME uniform scale is a whole number of seconds (or milliseconds) while the others
+        // carry the fraction of the offset between them (.184 / .816)
+        (2, (0usize..6, 0usize..6, -300_000_000_000i128..=300_000_000_000, prop_oneof![3 => Just(0i128), 1 => (0i128..1000).prop_map(|ms| ms * 1_000_000)])
+            .prop_map(|(a, b, sec, frac)| sec * NS_S + frac - zero_tai_ns(UNIFORM[a]) + zero_tai_ns(UNIFORM[b]))
+            .boxed()),
     ]);
     let dur = prop_oneof![small_delta(3), (any::<bool>(), log_mag(70)).prop_map(|(s, m)| if s { -m } else { m }), (0usize..9, -100i128..100).prop_map(|(u, k)| k * UNIT_NS[u])];
     (0usize..6, 0usize..6, count, dur).prop_map(|(a, b, c, d)| Conv { a: UNIFORM[a], b: UNIFORM[b], c, d }).boxed()
@@ -89,6 +94,45 @@ fn conv_oracle(c: &Conv) -> Verdict {
     let lhs = lib!((e + d).to_time_scale(SCALES[c.b]));
     let rhs = lib!(e.to_time_scale(SCALES[c.b]) + d);
     ensure!(lhs.duration.to_parts() == rhs.duration.to_parts() && lhs.time_scale == rhs.time_scale, "conversion does not commute with + {}", c.d);
+    // the same instant in two uniform scales compares equal, and one nanosecond later compares greater
+    {
+        use std::cmp::Ordering;
+        ensure!(lib!(e == r) && lib!(r == e) && lib!(e.cmp(&r)) == Ordering::Equal && lib!(r.cmp(&e)) == Ordering::Equal, "{} count {} and its conversion to {} do not compare equal", SCALE_NAMES[c.a], c.c, SCALE_NAMES[c.b]);
+        let later = lib!(e + Duration::from_total_nanoseconds(1));
+        ensure!(lib!(later > r) && lib!(r < later) && lib!(later.cmp(&r)) == Ordering::Greater && lib!(r.cmp(&later)) == Ordering::Less, "{} count {} + 1 ns does not compare greater than its conversion to {}", SCALE_NAMES[c.a], c.c, SCALE_NAMES[c.b]);
+    }
+    // text views of the target reading: the Gregorian string in the target scale, {:x} (TAI) and {:X} (TT)
+    {
+        let gw = want + greg_offset_ns(c.b);
+        let g = greg_of_ns1900(gw);
+        if (1..=9999).contains(&g.y) {
+            let txt = format!("{} {}", render_iso(&g), SCALE_NAMES[c.b]);
+            ensure!(lib!(e.to_gregorian_str(SCALES[c.b])) == txt, "to_gregorian_str({}) of {} count {} = {:?}, want {:?}", SCALE_NAMES[c.b], SCALE_NAMES[c.a], c.c, e.to_gregorian_str(SCALES[c.b]), txt);
+            if c.b == S_TAI {
+                ensure!(lib!(format!("{e:x}")) == txt, "{{:x}} of {} count {} = {:?}, want {:?}", SCALE_NAMES[c.a], c.c, format!("{e:x}"), txt);
+            }
+            if c.b == S_TT {
+                ensure!(lib!(format!("{e:X}")) == txt, "{{:X}} of {} count {} = {:?}, want {:?}", SCALE_NAMES[c.a], c.c, format!("{e:X}"), txt);
+            }
+        }
+    }
+    // with_time_from / with_hms_from / with_hms_strict_from take the time of day of another epoch "converted to the
+    // correct time scale" (their documentation); asserted for counts on or after the reference epoch, where the time
+    // of day of a count is unambiguous
+    {
+        let other = lib!(r + d); // reads want + d in scale b, c.c + d in scale a
+        let oa = c.c + c.d;
+        if c.c >= 0 && oa >= 0 {
+            let day0 = c.c.div_euclid(NS_D) * NS_D;
+            let wt = lib!(e.with_time_from(other));
+            ensure!(wt.time_scale == SCALES[c.a] && count(wt.duration) == day0 + oa.rem_euclid(NS_D), "with_time_from: {} count {} with the time of {} count {} gives {}, want {}", SCALE_NAMES[c.a], c.c, SCALE_NAMES[c.b], want + c.d, count(wt.duration), day0 + oa.rem_euclid(NS_D));
+            let hms = oa.rem_euclid(NS_D) / NS_S * NS_S;
+            let wh = lib!(e.with_hms_from(other));
+            ensure!(wh.time_scale == SCALES[c.a] && count(wh.duration) == day0 + hms + c.c.rem_euclid(NS_S), "with_hms_from gives {}, want {}", count(wh.duration), day0 + hms + c.c.rem_euclid(NS_S));
+            let ws = lib!(e.with_hms_strict_from(other));
+            ensure!(ws.time_scale == SCALES[c.a] && count(ws.duration) == day0 + hms, "with_hms_strict_from gives {}, want {}", count(ws.duration), day0 + hms);
+        }
+    }
     // accessor and constructor families
     let acc = lib!(accessor(&e, c.b));
     ensure!(count(acc) == want, "to_*_duration accessor for {} gives {}, want {}", SCALE_NAMES[c.b], count(acc), want);
